@@ -21,8 +21,8 @@ ASSUMPTIONS = [
     "TypedDict closedness and dropped surplus fixed-tuple members are not demanded; RecursionError/MemoryError are neither results nor violations",
 ]
 PLAN = {"quick": dict(programs=4000, depth=3, pool=14, values=2), "thorough": dict(programs=30000, depth=4, pool=30, values=4)}
-FLOORS = {"quick": {"returned": 150000, "raised": 100000, "corruptions": 150000, "shapes": 4000, "ill_typed_instances": 4000, "bytes_like_targets_checked": 2000},
-          "thorough": {"returned": 600000, "raised": 400000, "corruptions": 400000, "shapes": 20000, "ill_typed_instances": 30000, "bytes_like_targets_checked": 15000}}
+FLOORS = {"quick": {"returned": 150000, "raised": 100000, "corruptions": 150000, "shapes": 4000, "ill_typed_instances": 4000, "bytes_like_targets_checked": 2000, "oneshot_forms_checked": 8000},
+          "thorough": {"returned": 600000, "raised": 400000, "corruptions": 400000, "shapes": 20000, "ill_typed_instances": 30000, "bytes_like_targets_checked": 15000, "oneshot_forms_checked": 100000}}
 
 
 def judge(sh, spec, x, tsrc, origin, prog=None):
@@ -62,6 +62,45 @@ def canaries(sh):
     sh.canary("literal-bool-for-int", not conforms(lit, True)[0])
     sh.canary("accepts-valid", conforms(s, (1, "a"))[0])
     prog.drop()
+
+
+def oneshot_forms(sh, spec, w, tsrc, rng, prog):
+    """The wire form offered as a one-shot iterable (iterator, generator, zip, items view): the result - if there is one - is never
+    a truncated one, i.e. it equals what the materialised form gives."""
+    if not isinstance(w, (list, dict)) or not w:
+        return
+    try:
+        with quiet():
+            ref = typelib.unmarshal(spec.t, w)
+    except Exception:  # noqa: BLE001
+        return
+    if isinstance(w, dict):
+        forms = [("items-iterator", lambda: iter(list(w.items()))), ("items-view", lambda: w.items()), ("zip", lambda: zip(list(w), list(w.values()))),
+                 ("generator-of-pairs", lambda: ((k, v) for k, v in w.items()))]
+    else:
+        forms = [("iterator", lambda: iter(list(w))), ("generator", lambda: (e for e in w)), ("map", lambda: map(lambda e: e, w))]
+    name, make = rng.choice(forms)
+    sh.count("oneshot_forms_checked")
+    try:
+        with quiet():
+            r = typelib.unmarshal(spec.t, make())
+    except Exception:  # noqa: BLE001
+        sh.count("raised")
+        return
+    sh.count("returned")
+    try:
+        same_ = canon(r, strict=True) == canon(ref, strict=True)
+    except Exception:  # noqa: BLE001
+        return
+    if not same_:
+        if any(s_.kind == "union" for s_ in spec.walk()):
+            # with a union on the way the list-of-pairs and the mapping may legitimately go to different members; only a result that
+            # is the SAME container class but shorter is a truncation there
+            if not (type(r) is type(ref) and hasattr(r, "__len__") and len(r) < len(ref)):
+                sh.count("oneshot_union_member_differs")
+                return
+        sh.violation("truncated", type_src=tsrc, form=name, input=short(w, 300), result=short(r, 300), from_materialised=short(ref, 300),
+                     module_src=prog.source[-2500:])
 
 
 def plant(w, inst, depth=0):
@@ -113,6 +152,7 @@ def run_case(sh, i, plan):
                 except Exception:  # noqa: BLE001
                     continue
                 inputs.append(("wire", w))
+                oneshot_forms(sh, spec, w, tsrc, rng, prog)
                 cs = hostile.corruptions(w, rng, limit=16, other_wires=wires)
                 sh.count("corruptions", len(cs))
                 inputs.extend(("corrupt", c) for c in cs)
